@@ -68,6 +68,7 @@ type FCfg struct {
 	Script  string   `json:"script"`
 	Threads [][]GOp  `json:"threads"`
 	Faults  bool     `json:"faults,omitempty"`
+	BCount  int      `json:"bcount,omitempty"`  // FailoverConfig.BackendConfig.CountSoftLimit (the backend itself is always given explicitly)
 	Callout bool     `json:"callout,omitempty"` // scheduling points in stats/log call-outs
 	Follow  bool     `json:"follow,omitempty"`  // C04 follow-up phase
 	FTSec   int      `json:"ftsec,omitempty"`   // custom FailedUpdateTTL in seconds
@@ -155,6 +156,7 @@ type plantedKey struct{}
 type frontAPI interface {
 	Get(ctx context.Context, key []byte, b func(context.Context) (Tok, error)) (tok Tok, isNil bool, weird string, err error)
 	KeyLocks() int
+	ErrorsCleanup() // one cleanup cycle of the internal failure cache (what its janitor does periodically)
 	SeedFailure(ctx context.Context, key []byte, err error)
 	Preload(ctx context.Context, key []byte, v Tok)
 	Peek(key []byte) (v Tok, isNil bool, expireAt time.Time, found bool)
@@ -164,24 +166,26 @@ type frontAPI interface {
 }
 
 type fh struct {
-	cfg      FCfg
-	front    frontAPI
-	keys     [][]byte
-	names    []string
-	log      []FEv
-	seq      int
-	inflight [4]int
-	nbuild   [4]int
-	nread    int
-	nwrite   int
-	viol     []string
-	monitor  int64 // scheduler resource for harness call-outs
-	stats    map[string]float64
-	nfault   int
-	ttlCalls []ttlCall         // WithTTL calls the builder performs (C06)
-	ctxs     []context.Context // caller contexts of the Gets, in get-end order
-	quiet    bool              // record nothing (C16: threads must not share harness state)
-	ref      *fhRef
+	cfg       FCfg
+	front     frontAPI
+	keys      [][]byte
+	names     []string
+	log       []FEv
+	seq       int
+	inflight  [4]int
+	nbuild    [4]int
+	nread     int
+	nwrite    int
+	viol      []string
+	monitor   int64 // scheduler resource for harness call-outs
+	stats     map[string]float64
+	nfault    int
+	ttlChain  bool
+	slowBuild bool              // every build lets UpdateTTL+1s of virtual time pass before it returns (tag "slow")
+	ttlCalls  []ttlCall         // WithTTL calls the builder performs (C06)
+	ctxs      []context.Context // caller contexts of the Gets, in get-end order
+	quiet     bool              // record nothing (C16: threads must not share harness state)
+	ref       *fhRef
 }
 
 type ttlCall struct {
@@ -380,6 +384,12 @@ func (f *frontF) Get(ctx context.Context, key []byte, b func(context.Context) (T
 
 func (f *frontF) KeyLocks() int { return f.f.VerifKeyLocks() }
 
+func (f *frontF) ErrorsCleanup() {
+	if f.f.Errors != nil {
+		f.f.Errors.VerifCleanup()
+	}
+}
+
 func (f *frontF) ExpireAll() {
 	f.inner.(interface{ ExpireAll(context.Context) }).ExpireAll(context.Background())
 }
@@ -509,6 +519,12 @@ func (f *frontFO) Get(ctx context.Context, key []byte, b func(context.Context) (
 
 func (f *frontFO) KeyLocks() int { return f.f.VerifKeyLocks() }
 
+func (f *frontFO) ErrorsCleanup() {
+	if f.f.Errors != nil {
+		f.f.Errors.VerifCleanup()
+	}
+}
+
 func (f *frontFO) ExpireAll() { f.inner.ExpireAll(context.Background()) }
 
 func (f *frontFO) SeedFailure(ctx context.Context, key []byte, err error) {
@@ -594,6 +610,12 @@ func (f *frontFA) Get(ctx context.Context, key []byte, b func(context.Context) (
 
 func (f *frontFA) KeyLocks() int { return f.f.VerifKeyLocks() }
 
+func (f *frontFA) ErrorsCleanup() {
+	if f.f.Errors != nil {
+		f.f.Errors.VerifCleanup()
+	}
+}
+
 func (f *frontFA) ExpireAll() {
 	f.inner.(interface{ ExpireAll(context.Context) }).ExpireAll(context.Background())
 }
@@ -678,6 +700,10 @@ func newFH(cfg FCfg) *fh {
 		if t == "log" {
 			lg = flogger{h.ref}
 		}
+
+		if t == "slow" {
+			h.slowBuild = true
+		}
 	}
 
 	bcfg.Stats = st
@@ -743,6 +769,7 @@ func (h *fh) construct(cfg FCfg, bcfg cache.Config, st cache.StatsTracker, lg ca
 		f := cache.NewFailoverOf[any](cache.FailoverConfigOf[any]{
 			Name: "c", Backend: &bwrap{h: h, inner: inner}, SyncUpdate: cfg.SU, SyncRead: cfg.SR, FailHard: cfg.FH,
 			MaxStaleness: ms, FailedUpdateTTL: ft, UpdateTTL: upd, Stats: st, Logger: lg, ObserveMutability: cfg.ObsMut,
+			BackendConfig: cache.Config{CountSoftLimit: uint64(cfg.BCount)},
 		}.Use)
 		h.front = &frontFA{f: f, inner: inner}
 	case 0, 1, 5:
@@ -760,6 +787,7 @@ func (h *fh) construct(cfg FCfg, bcfg cache.Config, st cache.StatsTracker, lg ca
 		f := cache.NewFailover(cache.FailoverConfig{
 			Name: "c", Backend: &bwrap{h: h, inner: inner}, SyncUpdate: cfg.SU, SyncRead: cfg.SR, FailHard: cfg.FH,
 			MaxStaleness: ms, FailedUpdateTTL: ft, UpdateTTL: upd, Stats: st, Logger: lg, ObserveMutability: cfg.ObsMut,
+			BackendConfig: cache.Config{CountSoftLimit: uint64(cfg.BCount)},
 		}.Use)
 		h.front = &frontF{f: f, inner: inner}
 	case 2:
@@ -767,6 +795,7 @@ func (h *fh) construct(cfg FCfg, bcfg cache.Config, st cache.StatsTracker, lg ca
 		f := cache.NewFailoverOf[Tok](cache.FailoverConfigOf[Tok]{
 			Name: "c", Backend: &bwrapOf{h: h, inner: inner}, SyncUpdate: cfg.SU, SyncRead: cfg.SR, FailHard: cfg.FH,
 			MaxStaleness: ms, FailedUpdateTTL: ft, UpdateTTL: upd, Stats: st, Logger: lg, ObserveMutability: cfg.ObsMut,
+			BackendConfig: cache.Config{CountSoftLimit: uint64(cfg.BCount)},
 		}.Use)
 		h.front = &frontFO{f: f, inner: inner}
 	}
@@ -788,8 +817,21 @@ func (h *fh) builder(k int) func(ctx context.Context) (Tok, error) {
 		obs := ctxObs{Err: ctx.Err(), DoneNil: ctx.Done() == nil, Deadline: hasDL, Planted: ctx.Value(plantedKey{}), TTL: cache.TTL(ctx), Skip: cache.SkipRead(ctx)}
 		h.ev(FEv{Kind: "build-start", Key: k, N: n, Ctx: obs})
 
-		for _, c := range h.ttlCalls {
-			_ = cache.WithTTL(ctx, c.TTL, c.Upd)
+		if h.ttlChain {
+			// nested scopes: every call works on the context the previous one returned
+			cur := ctx
+			for _, c := range h.ttlCalls {
+				cur = cache.WithTTL(cur, c.TTL, c.Upd)
+			}
+		} else {
+			for _, c := range h.ttlCalls {
+				_ = cache.WithTTL(ctx, c.TTL, c.Upd)
+			}
+		}
+
+		// A slow data source: the build takes longer than UpdateTTL (and than the failure window).
+		if h.slowBuild {
+			vclock.Advance(updateTTL + time.Second)
 		}
 
 		// The caller gives up (its context is cancelled) while the build it has caused is running.
